@@ -51,19 +51,26 @@ class Kernel:
             self._saved = None
 
     # -- sysfs mirror -----------------------------------------------------
-    def _sync(self, name):
+    ATTRS = (('mtu', 'mtu'), ('ifalias', 'alias'), ('operstate', 'state'), ('address', 'addr'))
+
+    def _sync(self, name, only=None):
+        """Bring the sysfs mirror of one link in step (file creation is the slow part: write what changed)."""
         path = os.path.join(self.sysnet, name)
         link = self.links.get(name)
         if link is None:
             shutil.rmtree(path, ignore_errors=True)
             return
-        os.makedirs(path, exist_ok=True)
-        for attr, val in (('mtu', link['mtu']), ('ifalias', link['alias']), ('operstate', link['state']),
-                          ('speed', 10000), ('address', link['addr']), ('type', 1)):
-            with open(os.path.join(path, attr), 'w') as f:
-                f.write('%s\n' % val)
-        brif = os.path.join(path, 'brif')
-        if link['type'] == 'bridge':
+        fresh = not os.path.isdir(path)
+        if fresh:
+            os.makedirs(path)
+            with open(os.path.join(path, 'speed'), 'w') as f:
+                f.write('10000\n')
+        for attr, key in self.ATTRS:
+            if fresh or only is None or key in only:
+                with open(os.path.join(path, attr), 'w') as f:
+                    f.write('%s\n' % link[key])
+        if link['type'] == 'bridge' and (fresh or only is None or 'brif' in only):
+            brif = os.path.join(path, 'brif')
             os.makedirs(brif, exist_ok=True)
             have = set(os.listdir(brif))
             want = {n for n, l in self.links.items() if l.get('master') == name}
@@ -87,7 +94,7 @@ class Kernel:
                 l['master'] = None
         self._sync(name)
         if master in self.links:
-            self._sync(master)
+            self._sync(master, only=('brif',))
 
     # -- the boundary -----------------------------------------------------
     def _tick(self, cmd):
@@ -121,18 +128,20 @@ class Kernel:
                 self._fail(cmd, 1, 'Cannot find device "%s"' % dev)
             if what in ('up', 'down'):
                 L[dev]['state'] = what
+                self._sync(dev, only=('state',))
             elif what == 'alias':
                 L[dev]['alias'] = cmd[6]
+                self._sync(dev, only=('alias',))
             elif what == 'mtu':
                 L[dev]['mtu'] = int(cmd[6])
+                self._sync(dev, only=('mtu',))
             elif what == 'address':
                 L[dev]['addr'] = cmd[6]
+                self._sync(dev, only=('addr',))
             elif what == 'netns':
                 self._del_link_only(dev)
-                return 0
             else:
                 raise HarnessBug(cmd)
-            self._sync(dev)
             return 0
         if cmd[1:4] == ['link', 'add', 'name']:
             a, b = cmd[4], cmd[9]
@@ -167,7 +176,7 @@ class Kernel:
         link = self.links.pop(dev)
         self._sync(dev)
         if link.get('master') in self.links:
-            self._sync(link['master'])
+            self._sync(link['master'], only=('brif',))
 
     def _brctl(self, cmd):
         L = self.links
@@ -193,13 +202,13 @@ class Kernel:
             if dev.get('master'):
                 self._fail(cmd, 1, 'device %s is already a member of a bridge' % cmd[3])
             dev['master'] = cmd[2]
-            self._sync(cmd[2])
+            self._sync(cmd[2], only=('brif',))
         elif act == 'delif':
             dev = L.get(cmd[3])
             if dev is None or dev.get('master') != cmd[2]:
                 self._fail(cmd, 1, 'device %s is not a slave of %s' % (cmd[3], cmd[2]))
             dev['master'] = None
-            self._sync(cmd[2])
+            self._sync(cmd[2], only=('brif',))
         else:
             raise HarnessBug(cmd)
         return 0
